@@ -81,6 +81,10 @@ func (g *valGen) gen(t *Ty, depth int) *Val {
 	}
 	switch u.K {
 	case "basic":
+		if t.K == "named" && len(g.p.Named[t.ID].Consts) > 0 && g.r.Intn(4) != 0 { // mostly declared members of an enum
+			cs := g.p.Named[t.ID].Consts
+			return &Val{K: "b", B: cs[g.r.Intn(len(cs))].Val, T: t}
+		}
 		return &Val{K: "b", B: g.basic(u.Kind), T: t}
 	case "ptr":
 		if isNil {
